@@ -84,6 +84,14 @@ Definition run_C06 (cmd : Z) (ints : list Z) (arrs : list (list Q)) : option (li
                Some (ark_step (vo := vo) Fx G Gi dt ae ai bex bim u)
       | 10%Z => let '(ae, ai, bex, bim) := @cn_rk2_tableau Q QOps in
                Some (ark_step (vo := vo) Fx G Gi dt ae ai bex bim u)
+      | 11%Z => (* reduction targets: explicit RK / DIRK of the generated SIL3 tableau *)
+               Some (erk_step (vo := vo) Fx dt sil3_a_ex sil3_b_ex u)
+      | 12%Z => Some (dirk_step (vo := vo) G Gi dt sil3_a_im sil3_b_im u)
+      | 13%Z => (* explicit 2N scheme / Crank-Nicolson chain of low-storage scheme ints[2] *)
+               let '(al, be, ga) := scheme_ls (int ints 2) in
+               Some (ls_explicit_loop (vo := vo) Fx dt be ga (repeat 0%Q d) u)
+      | 14%Z => let '(al, be, ga) := scheme_ls (int ints 2) in
+               Some (cn_chain (vo := vo) G Gi dt al u)
       | _ => None
       end
   | 1%Z => Some [qofb (ls_rejects (intn ints 0) (intn ints 1) (intn ints 2))]
